@@ -42,6 +42,8 @@ func run(seed int64, n int, dir string, _ []string) {
 	dml.StdinCorpus(g, o, root)
 	// corpus: columns addressed by number (t.N) after DROP / ADD / RENAME of non-last columns, for every seed
 	dml.NumberRefCorpus(g, o, root)
+	// corpus: key matching with integer keys adjacent beyond 2^53, as integers and as digit strings
+	dml.BigKeyCorpus(g, o, root)
 
 	stmts := 0
 	for seq := 0; stmts < n; seq++ {
